@@ -6,6 +6,7 @@ import (
 	"errors"
 	"fmt"
 	"io"
+	"strings"
 	"testing"
 
 	enc "github.com/dapr/kit/schemes/enc/v1"
@@ -31,6 +32,14 @@ func body(s *simrt.Sim, tier string) {
 
 	if s.Choose(3, "direction") != 0 {
 		// ---- kit encrypts; the reference implementation and the kit decrypt
+		longName := 0
+		if s.Choose(16, "longname") == 0 {
+			// key names that bring the header close to its 64 KiB limit, from either side: Encrypt may refuse
+			// such a name, but whatever it does produce must decrypt
+			longName = []int{60000, 65300, 65380, 65400, 65424, 65440, 65500, 70000}[s.Choose(8, "longnamelen")]
+			keyName = strings.Repeat("k", longName)
+			desc = fmt.Sprintf("plaintext %d bytes, cipher %s, algorithm %s, key name of %d bytes", len(pt), cipher, alg.Name, longName)
+		}
 		opts := enc.EncryptOptions{Algorithm: alg.Name, KeyName: keyName}
 		switch s.Choose(4, "nameopt") {
 		case 1:
@@ -54,12 +63,16 @@ func body(s *simrt.Sim, tier string) {
 		enccommon.Chunking(s, src)
 		encR, err := enc.Encrypt(src, opts)
 		if err != nil {
-			s.Fail("encrypt-error", desc+": "+err.Error())
+			if longName == 0 {
+				s.Fail("encrypt-error", desc+": "+err.Error())
+			}
 			return
 		}
 		doc, rerr := enccommon.ReadAllChunked(s, encR)
 		if rerr != io.EOF {
-			s.Fail("encrypt-stream-error", desc+": "+fmt.Sprint(rerr))
+			if longName == 0 {
+				s.Fail("encrypt-stream-error", desc+": "+fmt.Sprint(rerr))
+			}
 			return
 		}
 		s.Logf("%s -> document %d bytes", desc, len(doc))
